@@ -2,7 +2,8 @@
    Only statements; all proof work is in Proofs/C05_Geodetic.v and Proofs/C05_Flow.v. *)
 From Coq Require Import Reals ZArith QArith List Bool String.
 From Verif Require Import Lib.Dyadic Lib.Atan2 Lib.Ival Lib.C05_Prog.
-From Verif Require Import Model.C05_Geodetic Model.C05_Flow Proofs.C05_Geodetic Proofs.C05_Flow.
+From Verif Require Import Model.C05_Geodetic Model.C05_Flow Proofs.C05_Geodetic Proofs.C05_Flow Proofs.C05_FlowToday.
+From Verif Require Gen.C05_EllipsoidFlow.
 From Verif Require Gen.C05_Ellipsoids.
 Import ListNotations.
 Open Scope R_scope.
@@ -86,6 +87,20 @@ Theorem trs2llh_exact_on_sphere : forall a x y z, 0 < a -> ~ is_pole a x y ->
 Proof. exact trs2llh_exact_on_sphere_l. Qed.
 Print Assumptions trs2llh_exact_on_sphere.
 
+(* exact at any height on the polar axis and in the equatorial plane (restricted accuracy statements) *)
+Theorem trs2llh_exact_on_axis : forall a f z, 0 < a -> f < 1 -> z <> 0 ->
+  let '(lat, lon, h) := trs2llh_R a f 0 0 z in llh2trs_R a f lat lon h = (0, 0, z).
+Proof. exact trs2llh_exact_on_axis_l. Qed.
+Print Assumptions trs2llh_exact_on_axis.
+
+(* (the excluded circle p = a e2, 42.7 km from the axis deep inside the Earth, is where the code divides 0 by 0) *)
+Theorem trs2llh_exact_on_equator : forall a f x y, 0 < a -> f < 1 -> ~ is_pole a x y ->
+  sqrt (x² + y²) <> a * ell_e2 a f ->
+  trs2llh_R a f x y 0 = (0, atan2 y x, sqrt (x² + y²) - a)
+  /\ llh2trs_R a f 0 (atan2 y x) (sqrt (x² + y²) - a) = (x, y, 0).
+Proof. exact trs2llh_exact_on_equator_l. Qed.
+Print Assumptions trs2llh_exact_on_equator.
+
 (* verdict 0 of the correspondence, direction trs -> llh: the implementation's doubles (lat, lon, h) are within
    1e-8 m + 4 ulp (arc length at the distance r of the point) of trs2llh_R of the exact inputs on the published ellipsoid i,
    and the point at distance h on the normal through (lat, lon) misses the input by at most 1e-6 m (h <= 100 km) / 2 mm *)
@@ -121,6 +136,24 @@ Proof.
 Qed.
 Print Assumptions ellipsoid_preserved.
 
+(* the tree under test: its regenerated hand-over table forwards at every constructor call site ... *)
+Theorem forwarding_table_all_true : table_all_true Gen.C05_EllipsoidFlow.forwarding_table = true.
+Proof. exact forwarding_table_all_true_l. Qed.
+Print Assumptions forwarding_table_all_true.
+
+(* ... hence, unconditionally, every operation list keeps the ellipsoid, at the end and at every intermediate result *)
+Theorem ellipsoid_preserved_today : forall dflt ops s,
+  snd (run Gen.C05_EllipsoidFlow.forwarding_table dflt ops s) = snd s
+  /\ Forall (fun t => t = snd s) (tags_along (step Gen.C05_EllipsoidFlow.forwarding_table dflt) s ops).
+Proof. exact ellipsoid_preserved_today_l. Qed.
+Print Assumptions ellipsoid_preserved_today.
+
+(* no site of the regenerated table is outside the model *)
+Theorem every_site_modelled :
+  forallb (fun e => existsb (String.eqb (fst e)) model_sites) Gen.C05_EllipsoidFlow.forwarding_table = true.
+Proof. exact every_site_modelled_l. Qed.
+Print Assumptions every_site_modelled.
+
 (* whatever the table says: operation lists that only pass through forwarding sites keep it *)
 Theorem forwarding_ops_preserve : forall tbl dflt ops k t,
   ops_forward tbl k ops = true -> snd (run tbl dflt ops (k, t)) = t.
@@ -128,8 +161,8 @@ Proof. exact forwarding_ops_preserve_l. Qed.
 Print Assumptions forwarding_ops_preserve.
 
 (* verdict 0 of the correspondence means what it should *)
-Theorem check_flow_sound : forall dflt posvel tag ops observed,
-  check_flow (dflt, posvel, tag, ops, observed) = 0%Z ->
+Theorem check_flow_sound : forall dflt k tag ops observed,
+  check_flow (dflt, k, tag, ops, observed) = 0%Z ->
   List.length observed = List.length ops /\ Forall (fun t => t = tag) observed.
 Proof. exact check_flow_sound_l. Qed.
 Print Assumptions check_flow_sound.
